@@ -203,3 +203,24 @@ contract(E + 'Engine.apply_update#bookkeeping', props=['C10', 'C05'],
              'implies(bool(update), forall(lambda p: implies(exists_range(0, len(%s), lambda j: below(%s[j], p)), '
              'not has(self.process_paths, p))))' % (REP(4), REP(4))],
          **COMMON)
+
+
+# ---- the engine's wrapper around inverse_topology: the WHOLE update a process returned is inverted (C01 / C06 / C08) -------
+@ghost(opaque=True)
+def inv_of(outer: 'Path', update: 'Tree', topology: 'Tree') -> 'Tree':
+    """what inverse_topology makes of (outer, update, topology) -- uninterpreted here; bounded-checked by the topology driver"""
+    return update
+
+
+external('vivarium.library.topology:inverse_topology',
+         types={'outer': 'Path', 'update': 'Tree', 'topology': 'Tree', 'inverse': 'Opt[Tree]', 'multi_updates': 'Bool', 'ret': 'Tree'},
+         defaults={'inverse': None, 'multi_updates': True},
+         ensures=['ret == inv_of(outer, update, topology)'],
+         why_trusted='recursion with closures and in-place merges: outside the translated subset; read/write symmetry is '
+                     'bounded-checked by the topology driver')
+
+contract(E + 'invert_topology', props=['C01', 'C06', 'C08'],
+         types={'update': 'Tree', 'args': 'Tup[Path,Tree]', 'path': 'Path', 'topology': 'Tree', 'ret': 'Tree'},
+         requires=['len(args[0]) >= 1'],
+         # nothing is filtered, reordered or dropped on the way: every port of the returned update reaches inverse_topology
+         ensures=['ret == inv_of(args[0][:len(args[0]) - 1], update, args[1])'])
